@@ -348,3 +348,35 @@ package mqtt
 //@        evArg[context.Context]("fntype:retryFn", 0, 0) == evRet[context.Context]("(*RetryClient).requestContext", 0, 0)
 //@   loop 1 exit[C18] on_error: evCount("fntype:retryFn") == 1 && hasRetry(evRet[error]("fntype:retryFn", 0, 0)) ==>
 //@        evCount("(*RetryClient).onError") == 1 && c.newRetryByError
+
+// ---- the task goroutine (C01, C03, C18) ----
+
+// every task pushed by the client's own methods
+//@ fntype func(ctx context.Context, cli *BaseClient)
+//@   shape ctx context.Context, cli *BaseClient, c *RetryClient -> 
+//@   assigns c.retryQueue; c.newRetryByError; c.subEstablished; (c.subEstablished)[*]; any Message.ID; any Message.Dup; any Message.QoS; any BaseClient.idLast; any BaseClient.connState; any BaseClient.err
+//@   let e0 []Subscription = c.subEstablished
+//@   ensures sameArray(c.subEstablished, e0) || fresh(c.subEstablished) || c.subEstablished == nil
+
+//@ func (*RetryClient).SetClient$1
+//@   mode int
+//@   props C01 C03 C18
+//@   requires c != nil
+//@   relies c.chConnectErr != nil && c.chConnSwitch != nil && forall(0, len(c.taskQueue), func(i int) bool { return c.taskQueue[i] != nil })
+//@   relies c.cli != nil && c.cli.Transport != nil
+//@   assigns c.retryQueue; c.newRetryByError; c.subEstablished; (c.subEstablished)[*]; any Message.ID; any Message.Dup; any Message.QoS; any BaseClient.idLast; any BaseClient.connState; any BaseClient.err
+//@   let es0 []Subscription = c.subEstablished
+//@   loop 1 invariant sub_arr: sameArray(c.subEstablished, es0) || fresh(c.subEstablished) || c.subEstablished == nil
+//@   loop 2 invariant waiting: !connected && (sameArray(c.subEstablished, es0) || fresh(c.subEstablished) || c.subEstablished == nil)
+//@   loop 1 iter[C01,C03] fifo: evCount("fntype:func(ctx context.Context, cli *BaseClient)") == 1 ==>
+//@        ssLen(guardSlice(&c.taskQueue)) >= 1 && sameFunc(evArg[taskFn]("fntype:func(ctx context.Context, cli *BaseClient)", 0, 2), ssAt(guardSlice(&c.taskQueue), 0)) &&
+//@        len(c.taskQueue) == ssLen(guardSlice(&c.taskQueue))-1 &&
+//@        forall(0, len(c.taskQueue), func(i int) bool { return sameFunc(c.taskQueue[i], ssAt(guardSlice(&c.taskQueue), i+1)) })
+//@   loop 1 iter[C01] one_at_a_time: evCount("fntype:func(ctx context.Context, cli *BaseClient)") <= 1 && evCount("go") == 0
+//@   loop 1 iter[C01] connected_only: evCount("fntype:func(ctx context.Context, cli *BaseClient)") == 1 ==> connected &&
+//@        evArg[*BaseClient]("fntype:func(ctx context.Context, cli *BaseClient)", 0, 1) == guardVal(&c.cli)
+//@   loop 1 iter[C01] no_task_no_change: evCount("fntype:func(ctx context.Context, cli *BaseClient)") == 0 && connected ==>
+//@        sameSlice(c.taskQueue, guardVal(&c.taskQueue))
+//@   loop 1 iter[C18,C01] close_on_error: evCount("fntype:func(ctx context.Context, cli *BaseClient)") == 1 ==>
+//@        evCount("Transport.Close") == ite(connected_next, 0, 1) && !c.newRetryByError
+//@   loop 2 exit[C01] connect_returned: evCount("select") == 1 && evRet[int]("select", 0, 0) == 0 && !evRet[bool]("select", 0, 1)
